@@ -340,7 +340,13 @@ impl Drv {
             5..=54 => {
                 // key event
                 let keys = if self.ctxs[xi].fixed { KEYS_FX } else { KEYS_PH };
-                let k = keys[self.rng.below(keys.len())];
+                // one key in 24 is a code riti.h does not publish (near the letter blocks, or anywhere): whatever the library
+                // makes of it, what it hands out must stay equal to the Rust API's value and be freed with its own size
+                let k = if self.rng.chance(1, 24) {
+                    if self.rng.chance(1, 2) { 0xA090 + self.rng.below(0x50) as u16 } else { self.rng.below(0x1_0000) as u16 }
+                } else {
+                    keys[self.rng.below(keys.len())]
+                };
                 let m = if self.rng.chance(1, 8) { 2 } else { 0 };
                 let sel = self.ctxs[xi].highlight.min(255) as u8;
                 self.call("riti_get_suggestion_for_key");
